@@ -447,7 +447,8 @@ class Inputs:
     def validate_week(year: int, week: int) -> bool:
         """Validate week."""
 
-        max_week = datetime.strptime(f"{12}-{31}-{year}", "%m-%d-%Y").isocalendar()[1]
+        # The Gregorian calendar repeats every 400 years: use the equivalent year that `datetime` supports
+        max_week = datetime(year % 400 + 2000, 12, 31).isocalendar()[1]
         if max_week == 1:
             max_week = 53
         return 1 <= week <= max_week
